@@ -35,7 +35,10 @@ pub(crate) mod verif_timer {
             WakeCell::new(), WakeCell::new(), WakeCell::new(),
             WakeCell::new(), WakeCell::new(), WakeCell::new(),
         );
-        let mut dl = [s.below(4) as u64, s.below(4) as u64, s.below(4) as u64];
+        // cfg bit 12 ("wide"): deadlines and clock steps range over the full u64 instead of 0..3 / 1..2
+        let wide = (_cfg >> 12) & 1 == 1;
+        macro_rules! pick_dl { () => { if wide { s.u64() } else { s.below(4) as u64 } } }
+        let mut dl = [pick_dl!(), pick_dl!(), pick_dl!()];
         let mut f0 = ManuallyDrop::new(LocalTimer::deadline(&svc, dl[0]));
         let mut f1 = ManuallyDrop::new(LocalTimer::deadline(&svc, dl[1]));
         let mut f2 = ManuallyDrop::new(LocalTimer::deadline(&svc, dl[2]));
@@ -97,7 +100,7 @@ pub(crate) mod verif_timer {
                 ever[i] = true;
                 let f = match i { 0 => &mut f0, 1 => &mut f1, _ => &mut f2 };
                 if !alive[i] {
-                    dl[i] = s.below(4) as u64;
+                    dl[i] = pick_dl!();
                     *f = ManuallyDrop::new(LocalTimer::deadline(&svc, dl[i]));
                     alive[i] = true;
                     dead[i] = false;
@@ -148,8 +151,8 @@ pub(crate) mod verif_timer {
                 expired[i] = false;
                 done[i] = false;
             } else if op == 9 {
-                let d = 1 + s.below(2) as u64;
-                now += d;
+                let d = if wide { s.u64() } else { 1 + s.below(2) as u64 };
+                now = now.saturating_add(d);
                 CLOCK.0.store(now, Ordering::Relaxed);
             } else {
                 s.assume(false);
@@ -511,6 +514,10 @@ pub(crate) mod verif_timer {
         hist_proof!(hist_c15_k3_drop_a4, NoopLock, 4 | (1 << 11), P15, 6);
         hist_proof!(hist_c15_k3_drop_a5, NoopLock, 5 | (1 << 11), P15, 7);
         hist_proof!(hist_c15_k3_all_a3b1, NoopLock, 3 | (1 << 4), P15, 5);
+        // "wide": 2 slots, deadlines and clock steps over the full u64, {poll, drop, advance}
+        hist_proof!(hist_c15_k2_wide_a3, NoopLock, 3 | (2 << 8) | (1 << 11) | (1 << 12), P15, 9);
+        hist_proof!(hist_c15_k2_wide_a4, NoopLock, 4 | (2 << 8) | (1 << 11) | (1 << 12), P15, 9);
+        hist_proof!(hist_c01_k2_wide_a3, NoopLock, 3 | (2 << 8) | (1 << 11) | (1 << 12), P01, 9);
         hist_proof!(hist_c17_k2_chk_a3b1, NoopLock, 3 | (1 << 4) | (2 << 8) | (1 << 10), P17, 5);
         hist_proof!(hist_c17_k3_chk_a4b1, NoopLock, 4 | (1 << 4) | (1 << 10), P17, 6);
         hist_proof!(hist_c17_k3_drop_a4, NoopLock, 4 | (1 << 11), P17, 6);
